@@ -21,6 +21,21 @@ CHECKS["C02"] = dict(
    design_ref="5/C02",
    note="Trusted: TarsWire.tla as the format definition, TLC, JSON transport of byte arrays. 32/64-bit spaces are sampled (boundaries of every width +-2, powers of two, random).")
 
+CHECKS["C03"] = dict(
+   engine="tlc+codecdrive",
+   technique="TLA+ schema-directed reference codec (TarsSchema.tla) self-checked by TLC (round trip, unknown-field insensitivity, truncation on a bounded schema family); batch oracle: TLC strictly decodes the bytes the real generated WriteTo/WriteBlock produce and compares with the value and with what the real ReadFrom/ReadBlock return",
+   category="model_checking",
+   text="Every struct of the framework's IDL (24 types, schemas extracted independently from tars/protocol/res/*.tars) and of idl/Vt.tars (every type constructor; code regenerated on each run by the tars2go built from the working tree) is filled with boundary-biased random values, encoded by the real generated code and decoded into a fresh struct; TLC's strict reference decoder must accept the bytes as a well-formed encoding of exactly that value (declared tags, ascending, at most once, admissible wire types, narrowest integers, required present) and the real decoder must return the same value.",
+   design_ref="5/C03",
+   note="Trusted: TarsSchema.tla + lib/idl2schema.py as the meaning of the IDL; TLC; canonical JSON of Go values built by reflection. Values are sampled (40 per type quick, 600 thorough).")
+CHECKS["C18"] = dict(
+   engine="tlc+epdrive",
+   technique="TLA+ reference of endpoint parsing/conversion/cache key (Endpoint.tla) model-checked exhaustively over token sequences; TLC-enumerated option sequences rendered and run through the real Parse/Endpoint2tars/Tars2endpoint, every record judged by TLC (Oracle_Endpoint)",
+   category="model_checking",
+   text="Endpoint.tla defines Parse as a fold of option tokens over the documented defaults plus weight normalisation, the registry conversions and the cache key; TLC checks round-trip/key-stability/last-wins/order-freedom invariants for every token sequence up to a bound, emits every sequence (and every order of every option subset) as an implementation test with the expected record, and judges what the real code returned field by field; every string up to length 4 over the option alphabet and seeded random strings must not crash.",
+   design_ref="5/C18",
+   note="Trusted: Endpoint.tla as the documented behaviour; repeated options, exact key text and registry layout are observations, not verdicts (statement silent).")
+
 PENDING = {}
 
 def main():
